@@ -46,7 +46,7 @@ theorem of_mem_takeWhile (q : Entry → Bool) (l : List Entry) : ∀ e ∈ l.tak
       rintro e (rfl | he)
       · exact h
       · exact ih e he
-    · simp [List.takeWhile_cons, h]
+    · simp [h]
 
 /-- the predicate of `aliveOf` -/
 def isAliveOf (n : Nat) (e : Entry) : Bool := e.name == n && e.alive
@@ -66,10 +66,10 @@ theorem find_list (l : List Entry) (n : Nat) (h : l.Pairwise Rel) :
     · have hne : (x.name == n) = false := by simp; omega
       simp only [List.dropWhile_cons, hlt, decide_true, if_true, List.find?_cons, isAliveOf, hne, Bool.false_and]
       exact ih hx.2
-    · simp only [List.dropWhile_cons, hlt, decide_false, List.head?_cons]
+    · simp only [List.dropWhile_cons, hlt, decide_false]
       by_cases ha : x.name = n ∧ x.alive = true
       · have : isAliveOf n x = true := by simp [isAliveOf, ha.1, ha.2]
-        simp [ha, List.find?_cons, this]
+        simp [ha, this]
       · have h1 : isAliveOf n x = false := by
           simp only [isAliveOf, Bool.and_eq_false_iff, beq_eq_false_iff_ne, ne_eq]
           by_cases e : x.name = n
@@ -82,7 +82,7 @@ theorem find_list (l : List Entry) (n : Nat) (h : l.Pairwise Rel) :
           simp only [isAliveOf, Bool.and_eq_true, beq_iff_eq, not_and, Bool.not_eq_true]
           intro hn
           exact r2 (by omega)
-        simp [ha, List.find?_cons, h1, h2]
+        simp [ha, h1, h2]
 
 theorem find_eq_aliveOf (p : Params) (hp : p.OK) (s : St) (hs : RInv s) (n : Nat) : find p s n = aliveOf s n := by
   unfold find bound
@@ -107,7 +107,7 @@ theorem filter_alive_le_one (l : List Entry) (n : Nat) (h : l.Pairwise Rel) : (l
         intro ⟨h1, h2⟩
         have := r2 (by omega)
         simp [this] at h2
-      simp [List.filter_cons, hx1, this]
+      simp [hx1, this]
     · simp only [List.filter_cons, hx1]
       exact ih hx.2
 
@@ -286,9 +286,9 @@ theorem find_kill (l : List Entry) (h : l.Pairwise Rel) (i m : Nat) :
           intro hh
           have := r2 (by omega)
           simp [this] at hh
-        simp [List.find?_cons, hq, h1, h2, hi]
+        simp [hq, h1, h2, hi]
       · have h1 : isAliveOf m (kill i x) = true := by rw [isAliveOf_kill, hq]; simp [hi]
-        simp [List.find?_cons, hq, h1, hi, kill_id]
+        simp [hq, h1, hi, kill_id]
     · have h1 : isAliveOf m (kill i x) = false := by rw [isAliveOf_kill]; simp [hq]
       simp only [List.map_cons, List.find?_cons, h1, hq]
       exact ih hx.2
